@@ -1,6 +1,4 @@
 """C17 — verdicts depend on type, shape and dtype only, so tracing equals eager."""
-from __future__ import annotations
-
 import json
 import os
 import typing
@@ -31,7 +29,9 @@ RULE = (
     "shapes), grad (w.r.t. a float parameter), and the compositions jit(vmap), vmap(jit), jit(grad), "
     "eval_shape(vmap), vmap(vmap); raise / no-raise must agree with the eager call and with the model, and no "
     "Concretization / TracerBoolConversion / TracerArrayConversion error may occur; a spy array records every "
-    "attribute and special method the check touches; non-trivial = >=2 parameters share an axis name or a "
+    "attribute and special method the check touches; directed cases: PRNG-key parameters (new and old style) next to "
+    "numeric ones, the same array object at several '?' leaf positions, 0-d arrays, each eager / jit / eval_shape / "
+    "vmap / jit(vmap) and again in reverse order; non-trivial = >=2 parameters share an axis name or a "
     "PyTree parameter is present; distinct by (signature, shapes)"
 )
 TRUSTED = [
@@ -249,6 +249,83 @@ def spy_checks(out, rng, n):
                 out.violation("spy:" + ",".join(touched)[:80], f"checking an array against Float[{'Any' if at is typing.Any else 'Spy'}, {dims!r}] touched {touched} of the array (only shape and dtype may be read)", {"dims": dims, "shape": shape})
 
 
+TRANSFORMS = {
+    "jit": lambda f, ia: jax.jit(f),
+    "eval_shape": lambda f, ia: (lambda *a: jax.eval_shape(f, *a)),
+    "jit(jit)": lambda f, ia: jax.jit(jax.jit(f)),
+}
+
+
+def directed_cases(out, rng):
+    """cases the random generator does not reach: PRNG-key parameters next to numeric ones (one tracer class
+    carries both kinds of dtype), the SAME array object at several leaf positions of a PyTree with '?' axes
+    (tracing always supplies distinct tracers), scalars and 0-d arrays, mixed-dtype calls repeated in
+    different orders (anything remembered per class or per object would show)"""
+    from jaxtyping import Float, Int, Key, PyTree, Shaped, UInt32
+
+    tc = typeguard.typechecked
+    key, key2 = jax.random.key(0), jax.random.key(1)
+    old = jax.random.PRNGKey(0)
+    f3, f4, i3 = jnp.zeros((3,), jnp.float32), jnp.zeros((4,), jnp.float32), jnp.zeros((3,), jnp.int32)
+
+    @jaxtyped(typechecker=tc)
+    def noisy(x: Float[jax.Array, "n"], k: Key[jax.Array, ""]) -> Float[jax.Array, "n"]:
+        return x
+
+    @jaxtyped(typechecker=tc)
+    def keys_first(k: Key[jax.Array, ""], x: Float[jax.Array, "n"], y: Int[jax.Array, "n"]) -> Shaped[jax.Array, ""]:
+        return jnp.zeros(())
+
+    @jaxtyped(typechecker=tc)
+    def oldkey(k: UInt32[jax.Array, "2"], x: Float[jax.Array, "n"]) -> Float[jax.Array, "n"]:
+        return x
+
+    Q = PyTree[Float[jax.Array, "?n"], "T"]
+
+    @jaxtyped(typechecker=tc)
+    def pair(x: Q, y: Q) -> Float[jax.Array, ""]:
+        return jnp.zeros(())
+
+    @jaxtyped(typechecker=tc)
+    def scalarish(x: Float[jax.Array, ""], y: Float[jax.Array, "..."], z: Int[jax.Array, "*b"]) -> Float[jax.Array, ""]:
+        return x
+
+    cases = [
+        ("float-then-key", noisy, (f3, key), "accept"),
+        ("float-then-key, wrong key dtype", noisy, (f3, i3), "reject"),
+        ("key-float-int", keys_first, (key2, f3, i3), "accept"),
+        ("key-float-int, sizes differ", keys_first, (key2, f3, jnp.zeros((4,), jnp.int32)), "reject"),
+        ("old-style key", oldkey, (old, f3), "accept"),
+        ("old-style key, float in its place", oldkey, (jnp.zeros((2,), jnp.float32), f3), "reject"),
+        ("same object at two leaf positions, other tree disagrees at position 1", pair, ((f3, f3), (jnp.zeros((3,)), f4)), "reject"),
+        ("same object at two leaf positions, other tree agrees", pair, ((f3, f3), (jnp.zeros((3,)), jnp.zeros((3,)))), "accept"),
+        ("same object in both trees", pair, ((f3, f4), (f3, f4)), "accept"),
+        ("0-d and any-rank", scalarish, (jnp.zeros(()), jnp.zeros((2, 2)), jnp.zeros((2,), jnp.int32)), "accept"),
+        ("0-d expected, 1-d given", scalarish, (jnp.zeros((1,)), jnp.zeros(()), jnp.zeros((), jnp.int32)), "reject"),
+    ]
+    # run every case eagerly first and transformed afterwards, then once more in reverse order: a verdict
+    # must not depend on what was checked before
+    for rnd, order in enumerate((cases, cases[::-1])):
+        for name, fn, args, want in order:
+            verdicts = {"eager": classify(lambda: fn(*args))}
+            verdicts["jit"] = classify(lambda: jax.jit(fn)(*args))
+            verdicts["eval_shape"] = classify(lambda: jax.eval_shape(fn, *args))
+            verdicts["vmap"] = classify(lambda: jax.vmap(fn)(*jax.tree_util.tree_map(lambda a: jnp.stack([a, a]), args)))
+            verdicts["jit(vmap)"] = classify(lambda: jax.jit(jax.vmap(fn))(*jax.tree_util.tree_map(lambda a: jnp.stack([a, a]), args)))
+            verdicts["eager-again"] = classify(lambda: fn(*args))
+            out.case(("directed", name, rnd), True, sample={"case": name, "round": rnd, "verdicts": verdicts})
+            eager = verdicts["eager"]
+            if eager != want:
+                out.violation("shapes-decide:directed", f"{name}: from the shapes and dtypes alone the call must be {want}, the eager call is {eager} (all verdicts: {verdicts})", {"directed": name})
+                continue
+            for k_, v in verdicts.items():
+                if v.startswith("CONCRETIZE"):
+                    out.violation(f"concretize:directed:{k_}", f"{name}: checking under {k_} forced a tracer to a concrete value: {v}", {"directed": name})
+                elif v != eager:
+                    out.violation(f"trace-vs-eager:directed:{k_}", f"{name}: the eager call is {eager} but under {k_} the same function on the same shapes / dtypes is {v} (all verdicts: {verdicts})", {"directed": name})
+                    break
+
+
 def run(tier, seed, out, drv, facts):
     rng = Rng(seed, "C17")
     thorough = tier == "thorough"
@@ -257,10 +334,13 @@ def run(tier, seed, out, drv, facts):
         case = c02.gen_case(rng, thorough)
         run_case(out, drv, facts, case, rng)
     spy_checks(out, rng, 400 if thorough else 60)
+    directed_cases(out, rng)
 
 
 def replay(rep, out, drv, facts):
-    if "case" in rep:
+    if "directed" in rep:
+        directed_cases(out, Rng(0, "replay"))
+    elif "case" in rep:
         run_case(out, drv, facts, rep["case"], Rng(0, "replay"), tree_ok=bool(rep.get("tree_params")))
     else:
         spy_checks(out, Rng(0, "replay"), 20)
